@@ -54,7 +54,7 @@ COMPONENTS = {
     "model": ["afqmcsim.models.cpmc.CPMCModel", "afqmcsim.models.fock"],
     "stub": [],
 }
-REQUIRED_PROBES = {"quick": ["walk_steps_compared", "exhaustive_sums", "model_exhaustive_validated", "pairs_checked", "same_spin_pairs", "nn_steps_compared", "both_branches_taken", "near_branch_uniforms", "one_body_sign_flip"],
+REQUIRED_PROBES = {"quick": ["walk_steps_compared", "exhaustive_sums", "model_exhaustive_validated", "pairs_checked", "same_spin_pairs", "nn_steps_compared", "both_branches_taken", "near_branch_uniforms", "one_body_sign_flip", "one_field_forbidden_walkers"],
                    "thorough": ["walk_steps_compared", "exhaustive_sums", "model_exhaustive_validated", "pairs_checked", "same_spin_pairs", "nn_steps_compared", "both_branches_taken", "near_branch_uniforms", "constraint_fired", "one_body_sign_flip"]}
 
 
@@ -85,6 +85,8 @@ def gen_cfg(seed, index, tier):
     if m["kind"] == "walk":
         m["steps"] = [rng.choice(["random", "random", "forced", "near"]) for _ in range(rng.randint(3, 12))]
         m["node_walker"] = rng.random() < 0.35
+        # walker 1: at the first site exactly one of the two field values is forbidden by the constraint
+        m["site_node_field"] = rng.choice([None, 0, 1])
     if m["kind"] == "nn":
         m["n_steps"] = rng.randint(2, 8)
         m["nn_bonds"] = rng.choice(["lattice", "open", "extended"])
@@ -224,6 +226,14 @@ def _exec_walk(cfg, ctx):
             w0 = [jnp.array(a), jnp.array(b)]
             min_ov = 0.0
             ctx.probe("node_straddling_walkers", 1)
+    if cfg.get("site_node_field") is not None and cfg["n_walkers"] > 1:
+        sn = cpmc_model.site_node_walker(m, np.asarray(w0[0])[1].real, np.asarray(w0[1])[1].real, np.random.RandomState(cfg["jax_seed"] + 13), 0, cfg["site_node_field"])
+        if sn is not None:
+            a, b = np.array(w0[0]), np.array(w0[1])
+            a[1], b[1] = sn[0], sn[1]
+            w0 = [jnp.array(a), jnp.array(b)]
+            min_ov = 0.0
+            ctx.probe("one_field_forbidden_walkers", 1)
     pf = sf.plain.init_prop_data(sf.trial, sf.wave_data, dict(sf.ham_data), [jnp.array(w0[0]), jnp.array(w0[1])])
     ps = ss.plain.init_prop_data(ss.trial, ss.wave_data, dict(ss.ham_data), [jnp.array(w0[0]), jnp.array(w0[1])])
     ov = np.asarray(pf["overlaps"])
